@@ -7,6 +7,7 @@ expected database is then produced by Django's own schema editor from the
 edited spec, never by a model of django-evolution.
 """
 import copy
+import zlib
 import random
 
 from . import specs as S
@@ -103,6 +104,8 @@ def to_mutation(spec, e):
         ini = e.get('initial')
         if ini is not None:
             kw['initial'] = initial_object(ini)
+        if e.get('explicit_null'):
+            kw['null'] = bool(e['fdef'].get('null', False))
         return M.AddField(e['model'], e['name'],
                           S.field_class(e['fdef']['kind']), **kw)
     if op == 'delete_field':
@@ -701,6 +704,18 @@ class SpecGen(object):
                 e.pop('initial', None)
             if not e['attrs'] and not e.get('new_kind'):
                 return None
+            if 'null' not in e['attrs'] and not e.get('new_kind') and \
+                    e.get('initial') is None and fdef.get('null') and \
+                    kind in ('Integer', 'BigInteger', 'Char', 'Text',
+                             'Boolean') and \
+                    zlib.crc32(repr((sorted(e['attrs'].items()), mname,
+                                     name)).encode()) % 3 == 0:
+                # legal but pointless: an initial value on a change that
+                # does not touch null (existing NULLs must stay NULL); drawn
+                # without consuming randomness
+                e['initial'] = {'Integer': 7, 'BigInteger': 7, 'Char': 'u',
+                                'Text': 'u', 'Boolean': True}[kind]
+                e['useless_initial'] = True
             return e
         if op == 'change_meta':
             prop = rng.choice(['unique_together', 'index_together',
